@@ -127,7 +127,11 @@ func (o *orC03A) onZKEventWrite(e *ZKEvent) {
 	// the lock was bound to the lost session, the process knows its session changed and has not
 	// re-acquired - it does not hold the lock whatever it was told before
 	if ls, ok := o.ownedSess[e.Inc]; ok && e.Sess != 0 && ls != e.Sess && m.lockOwner != e.Inc {
-		m.violate("C03", "act_after_session_loss", "manager-write-replayed-in-new-session-without-lock:"+strings.SplitN(rel, "/", 2)[0], fmt.Sprintf("%s %s %s in session %x; it held the lock in session %x, which is gone, and has not re-acquired it (owner=%q)", e.Inc, e.Op, e.Path, e.Sess, ls, m.lockOwner))
+		what := strings.SplitN(rel, "/", 2)[0]
+		if rel == "switch" && e.Op == "create" {
+			what = "switch-recreated" // a request that was gone comes back (cf. fix 9e7ba1e)
+		}
+		m.violate("C03", "act_after_session_loss", "manager-write-replayed-in-new-session-without-lock:"+what, fmt.Sprintf("%s %s %s in session %x; it held the lock in session %x, which is gone, and has not re-acquired it (owner=%q)", e.Inc, e.Op, e.Path, e.Sess, ls, m.lockOwner))
 	}
 	var it *iterRec
 	if x := m.iters[e.Inc]; x != nil && x.open {
